@@ -237,7 +237,8 @@ def run_check(pid, tier, spec):
             "transitions": transitions,
             "traces_validated_against_impl": total["evaluations"],
             "exhaustive": exhaustive,
-            "bounds": spec.get("bounds", {}).get(tier, ""),
+            "bounds": (spec.get("bounds", {}).get(tier, "") + " || families actually run (each enumerated completely): "
+                       + "; ".join(f["name"] for f in families)),
             "families": fam_summary,
             "format_calls": total["formats"],
             "outcome_counters": counters,
